@@ -60,6 +60,7 @@ class Gen:
         self.targets = set()
         self.force = {}         # directed cases (sweep_cases): forced parameters of a statement family
         self.pool = []          # directed cases: extents not handed out yet
+        self.layouts_used = []  # (statement kind, layout of the left operand, layout of the right operand): max/min, diag_vector, rank 4
         self.meta = []          # per statement: (kind, rank, dims)
         self.pref_dep = []      # views to be used as dependents / independents of the case's Jacobian (s_packed)
         self.pref_indep = []
@@ -667,6 +668,7 @@ class Gen:
         d = self.rankdims((1, 2, 2, 3) if maxrank == 3 else (1, 2, 2), 120)
         rank = len(d)
         la, lb = self.pick("layouts", self.LAYOUT_PAIRS[rank] + [("any", "any")] * 3)
+        self.layouts_used.append(("maxmin", la, lb))
         if k == "mmred":
             s_ = self.scalar(0)
             a = self.layout(d, True, la); b = self.layout(d, self.act("actb"), lb)
@@ -739,6 +741,7 @@ class Gen:
         k = self.force["diag"] if "diag" in self.force else r.randint(-(d[0] - 1), d[1] - 1)
         k = max(-(d[0] - 1), min(d[1] - 1, k))
         la, lb = self.pick("layouts", self.LAYOUT_PAIRS[2] + [("any", "any")] * 3)
+        self.layouts_used.append(("diag_vector", la, lb))
         a = self.layout(d, True, la); b = self.layout(d, self.act("actb"), lb)
         nh = self.h()
         n = min(d[0], d[1] - k) if k >= 0 else min(d[0] + k, d[1])
@@ -773,6 +776,7 @@ class Gen:
             return
         d = self.dims(4, 160); t = self.target(d); troot = self.info[t]["root"]
         la, lb = self.pick("layouts", self.LAYOUT_PAIRS[4] + [("any", "any")] * 4)
+        self.layouts_used.append(("rank4", la, lb))
         op = self.pick("op", ["add", "sub", "mul", "mul", "div"])
         if k in ("copy", "neg"):
             self.emit("%s %d %d" % (k, t, self.layout(d, self.act() if k == "copy" else True, la)), k, d, t)
@@ -1233,7 +1237,8 @@ def run(ctx, replay):
             ctx.violation("replayed case fails: " + f[3][:300], {"kind": f[0], "ops": ops, "message": f[3], "signature": signature(ops, f[3])})
         return
     nstmt_target = 1500 if ctx.tier == "quick" else 6000
-    dist = {"statement_kinds": {}, "ranks": {}, "view_kinds": {}, "extents": {}, "regime": {"exact": 0, "float": 0}}
+    dist = {"statement_kinds": {}, "ranks": {}, "view_kinds": {}, "extents": {}, "regime": {"exact": 0, "float": 0},
+            "operand_layout_pairs": {}}
     pending_model = []
     nviol = 0
     ncrash = 0
@@ -1264,6 +1269,9 @@ def run(ctx, replay):
                 dist["ranks"][str(rank)] = dist["ranks"].get(str(rank), 0) + 1
                 for d in dims:
                     dist["extents"][str(d)] = dist["extents"].get(str(d), 0) + 1
+            for (fam, la, lb) in g.layouts_used:
+                key = "%s:%s/%s" % (fam, la, lb)
+                dist["operand_layout_pairs"][key] = dist["operand_layout_pairs"].get(key, 0) + 1
             used = set()
             for o in g.stmts:
                 for tok in o.split()[1:]:
